@@ -40,9 +40,12 @@ fn main() {
         std::process::exit(vcheck::replay::replay(&prop, &path));
     }
     let run = match prop.as_str() {
+        "C03" => vcheck::checks::c03::run(tier),
+        "C04" => vcheck::checks::c04::run(tier),
         "C05" => vcheck::checks::c05::run(tier),
         "C08" => vcheck::checks::c08::run(tier),
         "C09" => vcheck::checks::c09::run(tier),
+        "C10" => vcheck::checks::c10::run(tier),
         "C11" => vcheck::checks::c11::run(tier),
         "C12" => vcheck::checks::c12::run(tier),
         "C13" => vcheck::checks::c13::run(tier),
